@@ -356,6 +356,8 @@ class LocationTable:
         DuplicatedPacketException
             If the packet is duplicated.
         """
+        # An expired entry that nothing has purged yet counts as absent (IS_NEIGHBOUR, DPL).
+        self.refresh_table()
         with self.loc_t_lock:
             entry = self.loc_t.get(position_vector.gn_addr)
             if entry is None:
@@ -388,6 +390,8 @@ class LocationTable:
         DuplicatedPacketException
             If the packet is duplicated.
         """
+        # An expired entry that nothing has purged yet counts as absent (IS_NEIGHBOUR, DPL).
+        self.refresh_table()
         so_pv = guc_extended_header.so_pv
         with self.loc_t_lock:
             entry: LocationTableEntry | None = self.get_entry(so_pv.gn_addr)
@@ -427,6 +431,8 @@ class LocationTable:
         DuplicatedPacketException
             If the packet is duplicated.
         """
+        # An expired entry that nothing has purged yet counts as absent (IS_NEIGHBOUR, DPL).
+        self.refresh_table()
         with self.loc_t_lock:
             entry: LocationTableEntry | None = self.get_entry(
                 tsb_extended_header.so_pv.gn_addr)
@@ -463,6 +469,8 @@ class LocationTable:
         DuplicatedPacketException
             If the packet is duplicated.
         """
+        # An expired entry that nothing has purged yet counts as absent (IS_NEIGHBOUR, DPL).
+        self.refresh_table()
         so_pv = gbc_extended_header.so_pv
         with self.loc_t_lock:
             entry: LocationTableEntry | None = self.get_entry(so_pv.gn_addr)
@@ -505,6 +513,8 @@ class LocationTable:
         DuplicatedPacketException
             If the packet is duplicated.
         """
+        # An expired entry that nothing has purged yet counts as absent (IS_NEIGHBOUR, DPL).
+        self.refresh_table()
         so_pv = ls_request_header.so_pv
         with self.loc_t_lock:
             entry: LocationTableEntry | None = self.get_entry(so_pv.gn_addr)
@@ -547,6 +557,8 @@ class LocationTable:
         DuplicatedPacketException
             If the packet is duplicated.
         """
+        # An expired entry that nothing has purged yet counts as absent (IS_NEIGHBOUR, DPL).
+        self.refresh_table()
         so_pv = ls_reply_header.so_pv
         with self.loc_t_lock:
             entry: LocationTableEntry | None = self.get_entry(so_pv.gn_addr)
@@ -585,6 +597,8 @@ class LocationTable:
         DuplicatedPacketException
             If the packet is duplicated.
         """
+        # An expired entry that nothing has purged yet counts as absent (IS_NEIGHBOUR, DPL).
+        self.refresh_table()
         with self.loc_t_lock:
             entry: LocationTableEntry | None = self.get_entry(
                 gbc_extended_header.so_pv.gn_addr)
